@@ -176,5 +176,20 @@ check("C12",
       technique="exhaustive enumeration of operation histories up to a depth bound on the implementation against a reference model",
       engine="explore", design="3/C12", deadline={"quick": 150, "thorough": 1500})
 
+check("C15",
+      passes=[dict(name="C15", src=["harness/C15.cpp"], variant="fast", shards={"quick": 1, "thorough": 1})],
+      rule="finite state space closed completely in both tiers: products, sums, expression lists, classes (with bases), unions, "
+           "namespaces (with redeclarations), enums, closures, parameter lists/mappings/templates with 0, 1, 3 members; blocks with "
+           "0, 1, 2 handlers and every handler body block; parameters with/without initializer; 8 types with natural and non-natural "
+           "transfer; every Sequence implementation (ref_sequence, obj_sequence, obj_list, empty_sequence, singleton_obj, singleton_ref, "
+           "typed_sequence, decl_sequence, both faces of homogeneous_scope); ALL pairs (and triples for transitivity) of values from "
+           "pools of 13 logograms, 9 linkages, 6 conventions, 9 transfers, 10 basic specifiers, 9 basic qualifiers, 5 strings, some equal "
+           "by spelling but obtained through different routes. distinct_nontrivial = states examined.",
+      text="Complete enumeration of a finite state space on the real nodes: each derived operation is evaluated "
+           "next to its defining primitives on the same node.",
+      note="The definitions are those spelled in <ipr/interface> and <ipr/ancillary>.",
+      technique="complete enumeration of a finite state space on the implementation; derived operation vs definition on every state",
+      engine="explore", design="3/C15")
+
 # Properties not claimed (with the reason that goes to MANIFEST.not_applicable).
 NOT_CLAIMED = {}
